@@ -254,7 +254,7 @@ func c18(c *Ctx) {
 		}
 		clients[et] = oc
 	}
-	for _, sc := range scs {
+	for si, sc := range scs {
 		ss := &scriptServer{prefix: sc.prefix, tail: sc.tail, readAll: sc.readAll}
 		ss.srvA = httptest.NewServer(ss.handler(0))
 		ss.srvB = httptest.NewServer(ss.handler(1))
@@ -266,6 +266,12 @@ func c18(c *Ctx) {
 			body = make([]byte, sc.bodyLen)
 			c.R.Read(body)
 			rdr = bytes.NewReader(body)
+			if si%2 == 1 {
+				// a body of unknown length (a pipe, a file, a multipart writer): net/http cannot see through the
+				// wrapper, leaves ContentLength at 0 and sends the body chunked
+				rdr = struct{ io.Reader }{bytes.NewReader(body)}
+				c.Count("body:unknown-length")
+			}
 		}
 		req, _ := http.NewRequest(sc.method, ss.srvA.URL+"/start", rdr)
 		var resp *http.Response
